@@ -5,10 +5,15 @@ d=$1; crate=$2; M=${MIRROR:-/tmp/mut}/repo
 git -C $M checkout -q -- . ; git -C $M clean -fdq -e target
 git -C $M apply $d/patch.diff || { echo "$(basename $d): patch does not apply"; exit 2; }
 suite=$(cd $M && CARGO_NET_OFFLINE=true cargo test --workspace --offline 2>&1 | grep -E "^test result" | awk '{p+=$4; f+=$6} END {print p" passed "f" failed"}')
+flags=$(python3 -c "import json;print(json.load(open('$d/meta.json')).get('demo_flags','') or '')" 2>/dev/null)
+if [ -n "$flags" ]; then
+  # profile-dependent change: the existing suite must pass in that profile too
+  suite="$suite; with $flags: $(cd $M && CARGO_NET_OFFLINE=true cargo test --workspace --offline $flags 2>&1 | grep -E "^test result" | awk '{p+=$4; f+=$6} END {print p" passed "f" failed"}')"
+fi
 mkdir -p $M/$crate/tests; cp $d/seed_demo.rs $M/$crate/tests/seed_demo.rs
-with=$(cd $M && CARGO_NET_OFFLINE=true cargo test -p $crate --offline --test seed_demo 2>&1 | grep -E "^test result" | awk '{print $4" passed "$6" failed"}')
+with=$(cd $M && CARGO_NET_OFFLINE=true cargo test -p $crate --offline $flags --test seed_demo 2>&1 | grep -E "^test result" | awk '{print $4" passed "$6" failed"}')
 git -C $M apply -R $d/patch.diff
-without=$(cd $M && CARGO_NET_OFFLINE=true cargo test -p $crate --offline --test seed_demo 2>&1 | grep -E "^test result" | awk '{print $4" passed "$6" failed"}')
+without=$(cd $M && CARGO_NET_OFFLINE=true cargo test -p $crate --offline $flags --test seed_demo 2>&1 | grep -E "^test result" | awk '{print $4" passed "$6" failed"}')
 rm -f $M/$crate/tests/seed_demo.rs; rmdir $M/$crate/tests 2>/dev/null
 git -C $M checkout -q -- . ; git -C $M clean -fdq -e target
 echo "$(basename $d): suite with change: [$suite]; demo with change: [$with]; demo without: [$without]"
